@@ -22,8 +22,8 @@ ASSUMPTIONS = [
 ]
 
 
-def run(ctx):
-    for cfg in CONFIGS:
+def run(ctx, configs=None):
+    for cfg in (configs or CONFIGS):
         prog = ctx.prog(cfg)
         roles, eff = effects.build(prog)
         ts = typestate.ConnTypestate(prog, roles, eff)
